@@ -1,11 +1,11 @@
 """C08: filter/split/error/short results keep accounting exact."""
 import os, sys
 sys.path.insert(0, os.path.dirname(__file__))
-from funnel_common import funnel_job, funnel_conc_job, funnel_shared_job, FUNNEL_RULE, FUNNEL_ASSUME
+from funnel_common import arbiter_job, funnel_job, funnel_conc_job, funnel_shared_job, FUNNEL_RULE, FUNNEL_ASSUME
 
 PROP = {
     "lean_modules": ["ConduitModel.Props.BatchProps", "ConduitModel.Props.ArbiterProps"],
-    "jobs": [funnel_job("C08"), funnel_conc_job("C08"), funnel_shared_job("C08")],
+    "jobs": [funnel_job("C08"), funnel_conc_job("C08"), funnel_shared_job("C08"), arbiter_job()],
     "rule": FUNNEL_RULE,
     "strength": 'batch bookkeeping and run ledger: full; whole pass: partial',
     "assumptions": FUNNEL_ASSUME,
